@@ -2,7 +2,8 @@
    Statements only: each theorem is closed by [exact <lemma>]; proofs live in
    Proofs/Session.v. The user state machine is arbitrary: every statement is
    quantified over its state type S, its result type and its Update function. *)
-From DB Require Import Base.Bytes Gen.GenC05 Model.Session Proofs.Session.
+From DB Require Import Base.Bytes Gen.GenC05 Model.Session Proofs.Session Model.ClientSession Proofs.ClientSession.
+From Coq Require Import Sorted.
 Open Scope N_scope.
 
 (* in every reachable state every cached series id is above the acknowledged
@@ -158,6 +159,30 @@ Theorem snapshot_cut_equiv_sessions :
                   snd (run sm_update (init_state cap s0) es1) ++ snd (run sm_update st1' es2)).
 Proof. exact @snapshot_cut_equiv_sessions_proved. Qed.
 Print Assumptions snapshot_cut_equiv_sessions.
+
+(* client side (client.Session): after PrepareForPropose, any interleaving of
+   proposing/retrying and ProposalCompleted never panics and emits entries with
+   the client's id, RespondedTo = SeriesID - 1, never a reserved series id,
+   non-decreasing series ids, and identical ids for equal series ids (a retry
+   re-uses exactly the same triple; a completed series id is never used again).
+   The bound excludes only the 2^64 wrap-around of the counter. *)
+Theorem client_discipline :
+  forall cid ops s0 out s',
+  cid <> 0 -> N.of_nat (length ops) < series_id_for_register - 1 ->
+  c_prepare_for_propose (c_new cid) = Some s0 ->
+  c_run s0 ops <> None /\
+  (c_run s0 ops = Some (out, s') ->
+   Forall (fun t => fst (fst t) = cid /\ 1 <= snd (fst t) /\ snd t + 1 = snd (fst t) /\
+                    snd (fst t) <> series_id_for_register /\ snd (fst t) <> series_id_for_unregister) out /\
+   Sorted (fun a b => snd (fst a) <= snd (fst b)) out /\
+   (forall a b, In a out -> In b out -> snd (fst a) = snd (fst b) -> a = b)).
+Proof. exact client_discipline_proved. Qed.
+Print Assumptions client_discipline.
+
+Example c05_client_witness :
+  option_map fst (match c_prepare_for_propose (c_new 9) with Some s => c_run s [CPropose; CPropose; CCompleted; CPropose; CCompleted; CPropose] | None => None end)
+  = Some [(9, 1, 0); (9, 1, 0); (9, 2, 1); (9, 3, 2)].
+Proof. vm_compute. reflexivity. Qed.
 
 (* non-vacuity: a concrete stream reaches a state with cached responses above a
    non-zero watermark, and an unknown client is rejected there *)
